@@ -233,6 +233,13 @@ func run(c *harness.Ctx, i int) {
 		defer b.s3.Close()
 	}
 	objs, ids := genStore(rng, uncompressed, strings.HasPrefix(kind, "local"))
+	if kind == "sftp" && rng.Intn(2) == 0 {
+		// what an interrupted upload over SFTP leaves behind: the chunk's file name with a random number appended
+		for k := 0; k < 1+rng.Intn(2); k++ {
+			id := ids[rng.Intn(len(ids))]
+			objs = append(objs, object{key: objKey(id, !uncompressed) + fmt.Sprint(1000000+rng.Int63n(1<<60)), data: []byte("partial upload"), category: "temp"})
+		}
+	}
 	storm := op == "verify" && rng.Intn(4) == 0
 	if storm {
 		// many tiny invalid chunks next to each other: the verify workers finish them within nanoseconds of each other
